@@ -49,10 +49,11 @@ def gen_rule(r, conn_level=False):
         elif key == 'destination':
             rule['destination'] = r.choice(DESTS)
         elif key == 'sender':
-            # the statement's list of locally evaluated constraints does not include the sender (the local router cannot
-            # resolve well-known names); every generated message comes from SENDER, so a rule naming it is satisfied
-            # under either reading, and the rule *text* must still express it
-            rule['sender'] = SENDER
+            # the statement's list of locally evaluated constraints does not include the sender: only the daemon knows
+            # which connection owns a well-known name, and it has applied that constraint before it forwards a signal.
+            # Every generated message comes from SENDER - a rule naming that unique name, or the well-known name SENDER
+            # owns, is satisfied by all of them, and the rule *text* must still express it
+            rule['sender'] = r.choice([SENDER, SENDER, 'org.verif.ServiceOwnedBySender'])
         elif key == 'args':
             rule['args'] = {r.choice([0, 0, 1, 2]): r.choice(ARGS) for _ in range(r.choice([1, 1, 2]))}
         elif key == 'arg_paths':
